@@ -236,7 +236,7 @@ def run(res, tier, seed):
         if not ok:
             failed.append(("coqchk", "coqchk did not accept the compiled development"))
 
-    n = 420 if tier == "quick" else 6000
+    n = 380 if tier == "quick" else 6000
     wit = witness_cases()
     cases = [c for _, c in wit] + regression_cases() + [gen_case(rng, i) for i in range(n)]
     t1 = time.time()
